@@ -12,6 +12,7 @@ import (
 
 	"verif/engine/evid"
 	"verif/props/coll"
+	"verif/props/packs"
 	"verif/props/vals"
 	"verif/refenc"
 
@@ -187,6 +188,20 @@ func Run(c *evid.Ctx) {
 	full := vals.Scalars(2)
 	for _, s := range full {
 		run(s)
+	}
+	// interference between two uses of the value codec: every ordered pair of the level-1 scalars
+	l1 := vals.Scalars(1)
+	for _, sa := range l1 {
+		for _, sb := range l1 {
+			atomic.AddInt64(&evals, 1)
+			packs.Interference(c, "C02", typeName(byte(sa.T)), vals.Build(sa), vals.Build(sb),
+				func(o interface{}) []byte {
+					out := gio.NewDataOutputX()
+					value.WriteValue(out, o.(value.Value))
+					return out.ToByteArray()
+				},
+				func(bs []byte) interface{} { return value.ReadValue(gio.NewDataInputX(bs)) })
+		}
 	}
 	small := vals.Scalars(1)
 	reps := vals.Scalars(0)
